@@ -1,3 +1,77 @@
-import GnoVerif.Model.C43
+import GnoVerif.Proofs.C43Err
+/-!
+C43 — multiplexed peer connections deliver each channel's messages intact and in order.
+
+Theorems about the model `GnoVerif.Model.C43` / `C43Wire` of tm2/pkg/p2p/conn/connection.go
+(sender: Send/TrySend, isSendPending, nextPacketMsg, sendPacketMsg with ANY choice of channel;
+wire: amino MarshalAnySized / UnmarshalSizedReader of the Packet interface; receiver: recvRoutine,
+recvPacketMsg).  `(initRun P sd).run acts` is the sending side after ANY finite sequence of accepted
+`Send`s, `TrySend`s, `sendPacketMsg` calls that pick ANY pending channel, pings and pongs;
+`(mkRecv P rd).feedChunks chunks` is the receiver after the transport delivered `chunks`, one per
+read (an empty chunk = a read returning `(0, nil)`).
+Helper lemmas: Proofs/C43*.lean.
+-/
 namespace GnoVerif.C43
+
+/-- both ends use payload size `P`; channel ids are distinct per side; the receiver has every channel
+    of the sender. -/
+def CfgOK (P : Nat) (sd : List SDesc) (rd : List RDesc) : Prop :=
+  0 < P ∧ P ≤ 2 ^ 20 ∧ (sd.map (·.id)).Nodup ∧ (rd.map (·.id)).Nodup ∧ ∀ d ∈ sd, ∃ d' ∈ rd, d'.id = d.id
+
+/-- "each message is delivered exactly once, unmodified and in send order per channel": no error;
+    at every moment the deliveries of a channel are a prefix of what was accepted on it; once the
+    sender has nothing left to send they are equal. -/
+def DeliveryExact (P : Nat) (sd : List SDesc) (rd : List RDesc) (acts : List Act) (chunks : List Bytes) : Prop :=
+  ((mkRecv P rd).feedChunks chunks).err = none ∧
+  (∀ ch, ((mkRecv P rd).feedChunks chunks).deliveredOn ch <+: ((initRun P sd).run acts).acceptedOn ch) ∧
+  (((initRun P sd).run acts).snd.exhausted →
+    ∀ ch, ((mkRecv P rd).feedChunks chunks).deliveredOn ch = ((initRun P sd).run acts).acceptedOn ch)
+
+/-- The property as stated: every message that fits the receiver (EMPTY ones included), every
+    schedule, every way the transport cuts the byte stream into reads (zero-length reads included). -/
+def delivery_exact_statement : Prop :=
+  ∀ (P : Nat) (sd : List SDesc) (rd : List RDesc) (acts : List Act) (chunks : List Bytes),
+    CfgOK P sd rd → (∀ a ∈ acts, ActFits rd a) →
+    chunks.flatten = wireOf ((initRun P sd).run acts).out →
+    DeliveryExact P sd rd acts chunks
+
+/-- Proved part: NON-EMPTY messages, reads that return at least one byte.  For every configuration,
+    every interleaving of sends and `sendPacketMsg` picks, every chunking: exactly-once, unmodified,
+    in-order delivery per channel, and no error.
+    Missing for the full statement: empty messages (lost, see `…_counterexample_empty_message`) and
+    zero-length reads (see `…_counterexample_zero_read`). -/
+theorem delivery_exact_partial (P : Nat) (sd : List SDesc) (rd : List RDesc) (acts : List Act)
+    (chunks : List Bytes) (hcfg : CfgOK P sd rd) (hacts : ∀ a ∈ acts, ActOK rd a)
+    (hne : ∀ c ∈ chunks, c ≠ [])
+    (hwire : chunks.flatten = wireOf ((initRun P sd).run acts).out) :
+    DeliveryExact P sd rd acts chunks := by
+  obtain ⟨hP0, hP1, hsd, hrd, hsub⟩ := hcfg
+  obtain ⟨out', ho, hi⟩ := Inv.run hP0 hP1 acts (initRun P sd) (mkRecv P rd) (Inv.init P sd rd hsd hrd hsub) hacts
+  have hout : ((initRun P sd).run acts).out = out' := by rw [ho]; rfl
+  have hr : (mkRecv P rd).feedChunks chunks = (mkRecv P rd).feed (wireOf out') := by
+    rw [Recv.feedChunks_nonempty _ _ hne, hwire, hout]
+  unfold DeliveryExact
+  rw [hr]
+  refine ⟨hi.rerr, ?_, ?_⟩
+  · intro ch
+    by_cases hex : ∃ c ∈ ((initRun P sd).run acts).snd.chans, c.id = ch
+    · obtain ⟨c, hc, rfl⟩ := hex
+      obtain ⟨rc, _, hrel⟩ := hi.chan c hc
+      rw [acceptedOn_eq, deliveredOn_eq, hrel.split, List.append_assoc]
+      exact List.prefix_append _ _
+    · have hno : ∀ c ∈ ((initRun P sd).run acts).snd.chans, c.id ≠ ch := fun c hc e => hex ⟨c, hc, e⟩
+      obtain ⟨h1, h2⟩ := hi.other ch hno
+      rw [acceptedOn_eq, deliveredOn_eq, h1, h2]
+      exact List.prefix_refl _
+  · intro hexh ch
+    by_cases hex : ∃ c ∈ ((initRun P sd).run acts).snd.chans, c.id = ch
+    · obtain ⟨c, hc, rfl⟩ := hex
+      obtain ⟨rc, _, hrel⟩ := hi.chan c hc
+      obtain ⟨hq, hs⟩ := hexh c hc
+      rw [acceptedOn_eq, deliveredOn_eq, hrel.split, hq, hs]
+      simp
+    · have hno : ∀ c ∈ ((initRun P sd).run acts).snd.chans, c.id ≠ ch := fun c hc e => hex ⟨c, hc, e⟩
+      obtain ⟨h1, h2⟩ := hi.other ch hno
+      rw [acceptedOn_eq, deliveredOn_eq, h1, h2]
+
 end GnoVerif.C43
